@@ -139,8 +139,6 @@ pub uninterp spec fn str_le(a: Seq<char>, b: Seq<char>) -> bool;
 { unimplemented!() }
 
 // ---------------- C10: the dependency relation the configuration declares ----------------
-pub open spec fn uses_of(t: Target) -> Seq<String> { match t.uses { Some(u) => u@, None => Seq::empty() } }
-pub open spec fn ignores_of(t: Target) -> Seq<String> { match t.ignores { Some(u) => u@, None => Seq::empty() } }
 pub open spec fn distinct_paths(ts: Seq<Target>, upto: int) -> bool { forall|i: int, j: int| 0 <= i < j < upto ==> (#[trigger] ts[i]).path@ != (#[trigger] ts[j]).path@ }
 // T_i depends on T_j: j is not i and T_j's directory encloses T_i's directory or some `uses` entry of T_i (whole components)
 pub open spec fn dep(ts: Seq<Target>, i: int, j: int) -> bool {
@@ -185,6 +183,7 @@ pub struct Index<'a> {
     pub dag: graph::Dag,
 }
 //!end
+//!include units/index/rep_vocab.rs
 
 
 // the nodes collected from one prefix search: everything in `nodes` was there before (n0) or is another target whose
@@ -226,6 +225,114 @@ proof fn lemma_hit_step(ts: Seq<Target>, n: int, i: int, q: Seq<char>, hits: Seq
     }
 }
 pub open spec fn in_rest_kv(s: Seq<&&String>, from: int, r: Seq<char>) -> bool { exists|j: int| from <= j < s.len() && (#[trigger] s[j]).kv() == r }
+
+// ---------------- building the representation, entry by entry ----------------
+// entries of a target: its `uses` (u = true) or its `ignores` (u = false)
+pub open spec fn ents(t: Target, u: bool) -> Seq<String> { if u { uses_of(t) } else { ignores_of(t) } }
+pub open spec fn before(i2: int, k2: int, i: int, k: int) -> bool { i2 < i || (i2 == i && k2 < k) }
+pub open spec fn ent_at(ts: Seq<Target>, u: bool, i2: int, k2: int, g: Seq<char>) -> bool { 0 <= i2 < ts.len() && 0 <= k2 < ents(ts[i2], u).len() && ents(ts[i2], u)[k2]@ == g }
+pub open spec fn ent_before(ts: Seq<Target>, u: bool, i: int, k: int, g: Seq<char>) -> bool { exists|i2: int, k2: int| #[trigger] ent_at(ts, u, i2, k2, g) && before(i2, k2, i, k) }
+pub open spec fn entl_before(ts: Seq<Target>, u: bool, i: int, k: int, g: Seq<char>, p: Seq<char>) -> bool { exists|i2: int, k2: int| #[trigger] ent_at(ts, u, i2, k2, g) && before(i2, k2, i, k) && ts[i2].path@ == p }
+// the builder's key set and the reverse map hold exactly the entries met before position (i, k)
+pub open spec fn ent_rep(ts: Seq<Target>, u: bool, i: int, k: int, keys: Set<Seq<char>>, m: Map<Seq<char>, Vec<&str>>) -> bool {
+    &&& forall|g: Seq<char>| #![trigger keys.contains(g)] keys.contains(g) <==> ent_before(ts, u, i, k, g)
+    &&& forall|g: Seq<char>| #![trigger m.dom().contains(g)] m.dom().contains(g) <==> ent_before(ts, u, i, k, g)
+    &&& forall|g: Seq<char>, p: Seq<char>| #![trigger views_in(m[g]@, p)] m.dom().contains(g) ==> (views_in(m[g]@, p) <==> entl_before(ts, u, i, k, g, p))
+}
+proof fn lemma_ent_step(ts: Seq<Target>, u: bool, i: int, k: int, keys: Set<Seq<char>>, m: Map<Seq<char>, Vec<&str>>, keys2: Set<Seq<char>>, m2: Map<Seq<char>, Vec<&str>>, v: &str)
+    requires
+        0 <= i < ts.len(), 0 <= k < ents(ts[i], u).len(), ent_rep(ts, u, i, k, keys, m),
+        v@ == ts[i].path@,
+        keys2 == keys.insert(ents(ts[i], u)[k]@),
+        m2.dom() == m.dom().insert(ents(ts[i], u)[k]@),
+        m2[ents(ts[i], u)[k]@]@ == (if m.dom().contains(ents(ts[i], u)[k]@) { m[ents(ts[i], u)[k]@]@ } else { Seq::<&str>::empty() }).push(v),
+        forall|q: Seq<char>| q != ents(ts[i], u)[k]@ && m.dom().contains(q) ==> m2[q] == m[q],
+    ensures ent_rep(ts, u, i, k + 1, keys2, m2)
+{
+    let g0 = ents(ts[i], u)[k]@;
+    assert(ent_at(ts, u, i, k, g0));
+    assert forall|g: Seq<char>| ent_before(ts, u, i, k + 1, g) <==> (ent_before(ts, u, i, k, g) || g == g0) by {
+        if ent_before(ts, u, i, k + 1, g) {
+            let (i2, k2) = choose|i2: int, k2: int| #[trigger] ent_at(ts, u, i2, k2, g) && before(i2, k2, i, k + 1);
+            if !(i2 == i && k2 == k) { assert(ent_at(ts, u, i2, k2, g) && before(i2, k2, i, k)); }
+        }
+        if ent_before(ts, u, i, k, g) { let (i2, k2) = choose|i2: int, k2: int| #[trigger] ent_at(ts, u, i2, k2, g) && before(i2, k2, i, k); assert(ent_at(ts, u, i2, k2, g) && before(i2, k2, i, k + 1)); }
+        if g == g0 { assert(ent_at(ts, u, i, k, g) && before(i, k, i, k + 1)); }
+    }
+    assert forall|g: Seq<char>, p: Seq<char>| #![trigger views_in(m2[g]@, p)] m2.dom().contains(g) implies (views_in(m2[g]@, p) <==> entl_before(ts, u, i, k + 1, g, p)) by {
+        let old_list = if m.dom().contains(g) { m[g]@ } else { Seq::<&str>::empty() };
+        // entl_before at k+1 == entl_before at k, or the new entry
+        assert(entl_before(ts, u, i, k + 1, g, p) <==> (entl_before(ts, u, i, k, g, p) || (g == g0 && p == ts[i].path@))) by {
+            if entl_before(ts, u, i, k + 1, g, p) {
+                let (i2, k2) = choose|i2: int, k2: int| #[trigger] ent_at(ts, u, i2, k2, g) && before(i2, k2, i, k + 1) && ts[i2].path@ == p;
+                if !(i2 == i && k2 == k) { assert(ent_at(ts, u, i2, k2, g) && before(i2, k2, i, k) && ts[i2].path@ == p); }
+            }
+            if entl_before(ts, u, i, k, g, p) { let (i2, k2) = choose|i2: int, k2: int| #[trigger] ent_at(ts, u, i2, k2, g) && before(i2, k2, i, k) && ts[i2].path@ == p; assert(ent_at(ts, u, i2, k2, g) && before(i2, k2, i, k + 1) && ts[i2].path@ == p); }
+            if g == g0 && p == ts[i].path@ { assert(ent_at(ts, u, i, k, g) && before(i, k, i, k + 1) && ts[i].path@ == p); }
+        }
+        if g == g0 {
+            let nl = m2[g]@;
+            assert(nl == old_list.push(v));
+            if views_in(nl, p) {
+                let j = choose|j: int| 0 <= j < nl.len() && (#[trigger] nl[j])@ == p;
+                if j < old_list.len() { assert(old_list[j]@ == p); assert(views_in(old_list, p)); assert(m.dom().contains(g)); }
+            }
+            if m.dom().contains(g) && views_in(m[g]@, p) { let j = choose|j: int| 0 <= j < m[g]@.len() && (#[trigger] m[g]@[j])@ == p; assert(nl[j]@ == p); }
+            if p == ts[i].path@ { assert(nl[old_list.len() as int]@ == p); }
+            if !m.dom().contains(g) { assert(!ent_before(ts, u, i, k, g)); if entl_before(ts, u, i, k, g, p) { let (i2, k2) = choose|i2: int, k2: int| #[trigger] ent_at(ts, u, i2, k2, g) && before(i2, k2, i, k) && ts[i2].path@ == p; assert(ent_at(ts, u, i2, k2, g) && before(i2, k2, i, k)); } }
+        } else {
+            assert(m.dom().contains(g));
+            assert(m2[g] == m[g]);
+        }
+    }
+}
+proof fn lemma_ent_next_target(ts: Seq<Target>, u: bool, i: int, keys: Set<Seq<char>>, m: Map<Seq<char>, Vec<&str>>)
+    requires 0 <= i < ts.len(), ent_rep(ts, u, i, ents(ts[i], u).len() as int, keys, m)
+    ensures ent_rep(ts, u, i + 1, 0, keys, m)
+{
+    let len = ents(ts[i], u).len() as int;
+    assert forall|g: Seq<char>| ent_before(ts, u, i + 1, 0, g) <==> ent_before(ts, u, i, len, g) by {
+        if ent_before(ts, u, i + 1, 0, g) { let (i2, k2) = choose|i2: int, k2: int| #[trigger] ent_at(ts, u, i2, k2, g) && before(i2, k2, i + 1, 0); assert(ent_at(ts, u, i2, k2, g) && before(i2, k2, i, len)); }
+        if ent_before(ts, u, i, len, g) { let (i2, k2) = choose|i2: int, k2: int| #[trigger] ent_at(ts, u, i2, k2, g) && before(i2, k2, i, len); assert(ent_at(ts, u, i2, k2, g) && before(i2, k2, i + 1, 0)); }
+    }
+    assert forall|g: Seq<char>, p: Seq<char>| entl_before(ts, u, i + 1, 0, g, p) <==> entl_before(ts, u, i, len, g, p) by {
+        if entl_before(ts, u, i + 1, 0, g, p) { let (i2, k2) = choose|i2: int, k2: int| #[trigger] ent_at(ts, u, i2, k2, g) && before(i2, k2, i + 1, 0) && ts[i2].path@ == p; assert(ent_at(ts, u, i2, k2, g) && before(i2, k2, i, len) && ts[i2].path@ == p); }
+        if entl_before(ts, u, i, len, g, p) { let (i2, k2) = choose|i2: int, k2: int| #[trigger] ent_at(ts, u, i2, k2, g) && before(i2, k2, i, len) && ts[i2].path@ == p; assert(ent_at(ts, u, i2, k2, g) && before(i2, k2, i + 1, 0) && ts[i2].path@ == p); }
+    }
+}
+// once every target has been processed the key set / reverse map are exactly the configuration's entries
+proof fn lemma_ent_done(ts: Seq<Target>, u: bool, keys: Set<Seq<char>>, m: Map<Seq<char>, Vec<&str>>)
+    requires ent_rep(ts, u, ts.len() as int, 0, keys, m)
+    ensures
+        forall|g: Seq<char>| #![trigger keys.contains(g)] keys.contains(g) <==> exists|i: int| 0 <= i < ts.len() && (if u { has_use(#[trigger] ts[i], g) } else { has_ignore(ts[i], g) }),
+        forall|g: Seq<char>| #![trigger m.dom().contains(g)] m.dom().contains(g) <==> keys.contains(g),
+        forall|g: Seq<char>, p: Seq<char>| #![trigger views_in(m[g]@, p)] m.dom().contains(g) ==> (views_in(m[g]@, p) <==> exists|i: int| 0 <= i < ts.len() && #[trigger] ts[i].path@ == p && (if u { has_use(ts[i], g) } else { has_ignore(ts[i], g) })),
+{
+    let n = ts.len() as int;
+    assert forall|g: Seq<char>| ent_before(ts, u, n, 0, g) <==> exists|i: int| 0 <= i < ts.len() && (if u { has_use(#[trigger] ts[i], g) } else { has_ignore(ts[i], g) }) by {
+        if ent_before(ts, u, n, 0, g) {
+            let (i2, k2) = choose|i2: int, k2: int| #[trigger] ent_at(ts, u, i2, k2, g) && before(i2, k2, n, 0);
+            if u { assert(uses_of(ts[i2])[k2]@ == g); assert(has_use(ts[i2], g)); } else { assert(ignores_of(ts[i2])[k2]@ == g); assert(has_ignore(ts[i2], g)); }
+        }
+        if exists|i: int| 0 <= i < ts.len() && (if u { has_use(#[trigger] ts[i], g) } else { has_ignore(ts[i], g) }) {
+            let i = choose|i: int| 0 <= i < ts.len() && (if u { has_use(#[trigger] ts[i], g) } else { has_ignore(ts[i], g) });
+            if u { let k = choose|k: int| 0 <= k < uses_of(ts[i]).len() && #[trigger] uses_of(ts[i])[k]@ == g; assert(ent_at(ts, u, i, k, g) && before(i, k, n, 0)); }
+            else { let k = choose|k: int| 0 <= k < ignores_of(ts[i]).len() && #[trigger] ignores_of(ts[i])[k]@ == g; assert(ent_at(ts, u, i, k, g) && before(i, k, n, 0)); }
+        }
+    }
+    assert forall|g: Seq<char>, p: Seq<char>| entl_before(ts, u, n, 0, g, p) <==> exists|i: int| 0 <= i < ts.len() && #[trigger] ts[i].path@ == p && (if u { has_use(ts[i], g) } else { has_ignore(ts[i], g) }) by {
+        if entl_before(ts, u, n, 0, g, p) {
+            let (i2, k2) = choose|i2: int, k2: int| #[trigger] ent_at(ts, u, i2, k2, g) && before(i2, k2, n, 0) && ts[i2].path@ == p;
+            if u { assert(uses_of(ts[i2])[k2]@ == g); assert(has_use(ts[i2], g)); } else { assert(ignores_of(ts[i2])[k2]@ == g); assert(has_ignore(ts[i2], g)); }
+            assert(ts[i2].path@ == p);
+        }
+        if exists|i: int| 0 <= i < ts.len() && #[trigger] ts[i].path@ == p && (if u { has_use(ts[i], g) } else { has_ignore(ts[i], g) }) {
+            let i = choose|i: int| 0 <= i < ts.len() && #[trigger] ts[i].path@ == p && (if u { has_use(ts[i], g) } else { has_ignore(ts[i], g) });
+            if u { let k = choose|k: int| 0 <= k < uses_of(ts[i]).len() && #[trigger] uses_of(ts[i])[k]@ == g; assert(ent_at(ts, u, i, k, g) && before(i, k, n, 0) && ts[i].path@ == p); }
+            else { let k = choose|k: int| 0 <= k < ignores_of(ts[i]).len() && #[trigger] ignores_of(ts[i])[k]@ == g; assert(ent_at(ts, u, i, k, g) && before(i, k, n, 0) && ts[i].path@ == p); }
+        }
+    }
+}
 pub open spec fn rows_empty_from(adj: Seq<Vec<usize>>, from: int) -> bool { forall|j: int| from <= j < adj.len() ==> (#[trigger] adj[j])@.len() == 0 }
 pub open spec fn index_ok(ts: Seq<Target>, roots: Set<Seq<char>>, dag: Dag) -> bool {
     let n = ts.len() as int;
@@ -249,6 +356,8 @@ impl<'a> Index<'a> {
 @        requires cfg.targets@.len() < usize::MAX,
 @        ensures
 @            res matches Ok(ix) ==> index_ok(cfg.targets@, visible_targets@, ix.dag), // [C10,C03,C05,C09]
+@            // C01: the tries and the reverse maps represent the configuration (what analyze_change requires)
+@            res matches Ok(ix) ==> rep_ok(ix, cfg.targets@), // [C01]
     {
         let mut targets⟦: Vec<String>⟧ = vec![];
         let mut target2index⟦: HashMap<&str, usize>⟧ = HashMap::new();
@@ -268,6 +377,7 @@ impl<'a> Index<'a> {
 @                dag.adj_list@.len() == n, dag.visibility@.len() == n, dag.cycle_state is Unknown,
 @                rows_empty_from(dag.adj_list@, 0), forall|v: int| 0 <= v < n ==> !(#[trigger] dag.visibility@[v]),
 @                distinct_paths(ts, i as int), labels_upto(ts, dag.label2node@, dag.node2label@, i as int), keys_upto(ts, targets_builder.keys, i as int),
+@                ent_rep(ts, false, i as int, 0, ignores_builder.keys, ignore2targets@),
         { let target = &cfg.targets[i];target2index.insert(target.path.as_str(), i);
             targets.push(target.path.to_owned());
             let target_path_str = target.path.as_str();
@@ -300,12 +410,24 @@ impl<'a> Index<'a> {
 @            }
 
             if let Some(ignores) = target.ignores.as_ref() {
+@                assert(ents(ts[i as int], false) == ignores@);
                 for s in ⟦its: ⟧ignores.iter()
-@                    invariant true,
+@                    invariant
+@                        ts == cfg.targets@, i < ts.len(), *target == ts[i as int], target.ignores == Some(*ignores), target_path_str@ == ts[i as int].path@,
+@                        its.seq().len() == ignores@.len(), forall|q: int| 0 <= q < ignores@.len() ==> *its.seq()[q] == ignores@[q],
+@                        ent_rep(ts, false, i as int, its.index@ as int, ignores_builder.keys, ignore2targets@),
                 {
+@                    let ghost kk = its.index@ as int;
+@                    let ghost keys0 = ignores_builder.keys;
+@                    let ghost m0 = ignore2targets@;
+@                    assert(ents(ts[i as int], false) == ignores@ && s@ == ignores@[kk]@);
                     ignores_builder.push(s);
                     ignore2targets.entry_or_default_push(s.as_str(), target_path_str);
+@                    proof { lemma_ent_step(ts, false, i as int, kk, keys0, m0, ignores_builder.keys, ignore2targets@, target_path_str); }
                 }
+@                proof { lemma_ent_next_target(ts, false, i as int, ignores_builder.keys, ignore2targets@); }
+@            } else {
+@                proof { assert(ents(ts[i as int], false).len() == 0); lemma_ent_next_target(ts, false, i as int, ignores_builder.keys, ignore2targets@); }
             }
             }
 
@@ -319,6 +441,7 @@ impl<'a> Index<'a> {
 @                rows_empty_from(dag.adj_list@, i as int), forall|v: int| 0 <= v < n ==> !(#[trigger] dag.visibility@[v]),
 @                distinct_paths(ts, n), labels_upto(ts, dag.label2node@, dag.node2label@, n), keys_upto(ts, targets_trie.keys, n),
 @                forall|j: int| 0 <= j < i ==> adj_is_dep(ts, (#[trigger] dag.adj_list@[j])@, j),
+@                ent_rep(ts, true, i as int, 0, uses_builder.keys, use2targets@), ent_rep(ts, false, n, 0, ignores_builder.keys, ignore2targets@),
         { let target = &cfg.targets[i];let target_path_str = target.path.as_str();
             // if this target is under an existing target, add it as a dep
             let mut nodes⟦: Vec<usize>⟧ = vec![];
@@ -354,13 +477,18 @@ impl<'a> Index<'a> {
 @                        distinct_paths(ts, n), labels_upto(ts, l2n, dag.node2label@, n), keys_upto(ts, targets_trie.keys, n),
 @                        itu.seq().len() == uses@.len(), forall|q: int| 0 <= q < uses@.len() ==> *itu.seq()[q] == uses@[q],
 @                        forall|x: int| #![trigger memb(nodes@, x)] memb(nodes@, x) <==> (0 <= x < n && dep_upto(ts, i as int, x, true, itu.index@ as int)),
+@                        target_path_str@ == ts[i as int].path@, ent_rep(ts, true, i as int, itu.index@ as int, uses_builder.keys, use2targets@),
                 {
                     let uses_path_str = s.as_str();
 @                    let ghost ku = itu.index@ as int;
 @                    let ghost n0 = nodes@;
 @                    assert(uses_of(ts[i as int]) == uses@ && uses_path_str@ == uses@[ku]@);
+@                    let ghost ukeys0 = uses_builder.keys;
+@                    let ghost um0 = use2targets@;
+@                    assert(ents(ts[i as int], true) == uses@);
                     uses_builder.push(uses_path_str);
                     use2targets.entry_or_default_push(s, target_path_str);
+@                    proof { lemma_ent_step(ts, true, i as int, ku, ukeys0, um0, uses_builder.keys, use2targets@, target_path_str); }
                     // a dependency has been established between this target and some
                     // number of targets, so we update the graph
                     for t in ⟦ith2: ⟧path_prefix_search(&targets_trie, uses_path_str)
@@ -398,8 +526,10 @@ impl<'a> Index<'a> {
 @                    }
                 }
 @                assert forall|x: int| #![trigger memb(nodes@, x)] memb(nodes@, x) <==> (0 <= x < n && dep(ts, i as int, x)) by { lemma_dep_upto_full(ts, i as int, x); }
+@                proof { assert(ents(ts[i as int], true) == uses@); lemma_ent_next_target(ts, true, i as int, uses_builder.keys, use2targets@); }
 @            } else {
 @                assert forall|x: int| #![trigger memb(nodes@, x)] memb(nodes@, x) <==> (0 <= x < n && dep(ts, i as int, x)) by { assert(uses_of(ts[i as int]).len() == 0); lemma_dep_upto_full(ts, i as int, x); }
+@                proof { assert(ents(ts[i as int], true).len() == 0); lemma_ent_next_target(ts, true, i as int, uses_builder.keys, use2targets@); }
             }
             sort_usize(&mut nodes);
             dedup_usize(&mut nodes);
@@ -432,6 +562,7 @@ impl<'a> Index<'a> {
 @                distinct_paths(ts, n), labels_upto(ts, dag.label2node@, dag.node2label@, n),
 @                forall|i: int| 0 <= i < n ==> adj_is_dep(ts, (#[trigger] dag.adj_list@[i])@, i),
 @                forall|j: int| 0 <= j < itv.seq().len() ==> roots.contains((#[trigger] itv.seq()[j]).kv()),
+@                keys_upto(ts, targets_trie.keys, n), ent_rep(ts, true, n, 0, uses_builder.keys, use2targets@), ent_rep(ts, false, n, 0, ignores_builder.keys, ignore2targets@),
 @                forall|v: int| 0 <= v < n && #[trigger] dag.visibility@[v] ==> exists|r: Seq<char>| roots.contains(r) && l2nf.dom().contains(r) && reachable(adjf, l2nf[r] as int, v),
 @                forall|r: Seq<char>, v: int| #![trigger reachable(adjf, l2nf[r] as int, v)] roots.contains(r) && l2nf.dom().contains(r) && 0 <= v < n && reachable(adjf, l2nf[r] as int, v) ==> dag.visibility@[v] || in_rest_kv(itv.seq(), itv.index@ as int, r),
         {
@@ -466,6 +597,14 @@ impl<'a> Index<'a> {
 @        }
 
         sort_strings(&mut targets);
+@        let ghost ukeys = uses_builder.keys;
+@        let ghost ikeys = ignores_builder.keys;
+@        proof {
+@            lemma_ent_done(ts, true, ukeys, use2targets@);
+@            lemma_ent_done(ts, false, ikeys, ignore2targets@);
+@            assert forall|l: Seq<char>| #![trigger targets_trie.keys.contains(l)] targets_trie.keys.contains(l) <==> is_target(ts, l) by { }
+@            assert(rep_parts(ts, targets_trie.keys, ukeys, ikeys, use2targets@, ignore2targets@));
+@        }
         Ok(Self {
             targets,
             target2index,
